@@ -361,6 +361,23 @@ func K11(which int) *Entry {
 	}
 }
 
+// K18 is the descriptor of the C18 fault enumeration: messages reachable only through
+// a map value, through a list of messages holding a map, shared by two exported types,
+// and an exported type that reaches none of them.
+func K18() *Entry {
+	m := M("OnlyInMap", F("Label"), F("Count", Sc(ir.Int32)))
+	m2 := M("DeepInMap", F("Note"))
+	w := M("Wrapper", F("Title"), F("ByKey", MsgT("DeepInMap"), MapOf(), NonNull()))
+	shared := M("SharedPart", F("SharedName"), F("Inner", MsgT("SharedInner")))
+	inner := M("SharedInner", F("Leaf"))
+	a := M("Aroot", F("Name"), F("Items", MsgT("OnlyInMap"), MapOf()), F("Part", MsgT("SharedPart")))
+	b := M("Broot", F("Name"), F("Wraps", MsgT("Wrapper"), Rep()), F("Part", MsgT("SharedPart"), NonNull()), F("Parts", MsgT("SharedPart"), Rep()))
+	c := M("Croot", F("Name"), F("Level", Sc(ir.Int64)))
+	f := file("k18", a, b, c, w, m, m2, shared, inner)
+	AutoComments(f)
+	return &Entry{Name: "k18", File: f, Cfg: BaseConfig("Aroot", "Broot", "Croot"), Tags: []string{"map-only-reachability", "shared-message", "multi-root"}}
+}
+
 // Curated returns the curated corpus. known=true adds the isolated shapes that
 // are known not to compile on the pinned tree (D1, D2).
 func Curated() []*Entry {
